@@ -76,32 +76,31 @@ class O2JMap(Map[O2JNoteList, O2JHitList, O2JHoldList, O2JBpmList]):
 
         offset = 0
         measure = 0
-        bpm_ix = -1
+        bpm_ix = 0
         bpm_val = init_bpm
 
-        next_bpm_measure = bpms[0].measure if len(bpms) > 0 else None
-        for note_measure in note_measures:
-            if not next_bpm_measure:
-                while note_measure > next_bpm_measure:
-                    bpm_ix += 1
-                    bpm = bpms[bpm_ix]
-                    # Update offset
-                    offset += RAConst.min_to_msec((bpm.measure - measure) * 4 / bpm_val)
-                    bpm.offset = offset
-                    measure = bpm.measure
-                    bpm_val = bpm.bpm
+        def advance(bpm: O2JBpm):
+            """Moves the sweep to this bpm event, assigning its offset"""
+            nonlocal offset, measure, bpm_val
+            offset += RAConst.min_to_msec((bpm.measure - measure) * 4 / bpm_val)
+            bpm.offset = offset
+            measure = bpm.measure
+            bpm_val = bpm.bpm
 
-                    # Check if next one is available
-                    if bpm_ix + 1 == len(bpms):
-                        next_bpm_measure = None
-                        break
-                    else:
-                        next_bpm_measure = bpm.measure
+        for note_measure in note_measures:
+            # Consume all bpm events at or before this measure
+            while bpm_ix < len(bpms) and bpms[bpm_ix].measure <= note_measure:
+                advance(bpms[bpm_ix])
+                bpm_ix += 1
 
             # We add it into the measure: offset dictionary.
             note_measure_dict[note_measure] = offset + RAConst.min_to_msec(
                 4 * (note_measure - measure) / bpm_val
             )
+
+        # Bpm events after the last note still need an offset
+        for bpm in bpms[bpm_ix:]:
+            advance(bpm)
 
         # We then assign all the offsets here
         for note in notes:
